@@ -515,6 +515,12 @@ func (ef *errFlow) resultOrigins(fn *ssa.Function, idx int) []origin {
 		if idx == len(e.Results)-1 && retErr(p, len(p.Events)-1) == triNil {
 			continue
 		}
+		// (a result built by a helper expanded in place on this path is
+		// judged with that helper's error parameters bound as on this path)
+		if _, hasBinds := firstErrBind(p); hasBinds {
+			out = append(out, ef.ofOn(p, e.Results[idx])...)
+			continue
+		}
 		seen[e.Results[idx]] = true
 		out = append(out, ef.of(e.Results[idx])...)
 	}
@@ -573,4 +579,15 @@ func (ef *errFlow) ofOn(p *pathx.Path, v ssa.Value) []origin {
 	ef.ctx = ef.ctx[:len(ef.ctx)-1]
 	ef.memo, ef.active, ef.res = memo, active, res
 	return out
+}
+
+// firstErrBind reports whether an error-typed parameter of an expanded helper
+// is bound on p.
+func firstErrBind(p *pathx.Path) (*ssa.Parameter, bool) {
+	for k := range pathBindings(p) {
+		if pr, ok := k.(*ssa.Parameter); ok && types.Identical(pr.Type(), types.Universe.Lookup("error").Type()) {
+			return pr, true
+		}
+	}
+	return nil, false
 }
